@@ -136,8 +136,8 @@ func (in *Interp) strSplit(s StrV, sep []byte, maxPieces int) []StrV {
 		}
 		pieces = append(pieces, StrV{Mem: s.Mem, Off: tb.Add(s.Off, from), Len: tb.Sub(idx, from), Max: in.needBound(s, "split")})
 		from = tb.Add(idx, tb.Int(int64(len(sep))))
-		if k > 12 {
-			in.inconclusive = append(in.inconclusive, "strings.Split: more than 12 pieces")
+		if k > 48 {
+			in.inconclusive = append(in.inconclusive, "strings.Split: more than 48 pieces")
 			in.endPath("unwind")
 		}
 	}
